@@ -64,6 +64,12 @@ CLAIMED = {
                 note="filter_objects / get_object_results / the frame-result constructor / evaluate_frame are cut at contracts (evaluate_frame may write only "
                      "its own result's object_results and its own frame's objects: body under C03). Scene pooling, one-frame scene == frame score, order "
                      "independence and determinism rest on the native harness (bounded: sequences of up to 6 calls on up to 3 frames).", ref="5/C13"),
+    "C05": dict(text="CLEAR._is_same_match / _is_id_switched are verified against their truth tables, _calculate_score against the MOTA/MOTP formulas, and "
+                     "_calculate_tp_fp (nested search loop with breaks) for all pairs of result lists: TP, FP and ID-switch accumulators equal ghost prefix counts of "
+                     "the statement's per-result predicates (first previous TP sharing a track decides), so every considered result is exactly one of TP/FP; "
+                     "count lemmas by induction on every run. Ids occur only under ==, hence renaming invariance.",
+                note="Correctness at a threshold, matching scores and thresholds are named functions (C03/C06/C10). Not under contract: CLEAR.__init__ (sum over "
+                     "frames), tp_matching_score accumulation, _sum_clear and the scenario clauses (perfect tracker, new id, exchange) - native harness (bounded).", ref="5/C05"),
 }
 NA_REASON = "check not built yet in this session (planned in DESIGN.md section 5); not claimed"
 ALL = [f"C{n:02d}" for n in range(1, 21)]
